@@ -12,6 +12,7 @@ sequence-number header.
 from __future__ import annotations
 
 from vp.core import Ctx, Fail, SubCheck, Tally, call
+from props.c14 import warm_hypothesis_constants
 from vp.refs import moto_ref as MR
 
 LEVEL = "exploration"
@@ -344,6 +345,7 @@ def drv_tms(ctx: Ctx, sub: SubCheck):
         for k in tms_classes(c):
             t.cls(sub.name, k)
 
+    warm_hypothesis_constants()
     ctx.shards(lambda i, t: ctx.hypothesis(sub.name, strat, oracle_tms, ctx.pick(350, 8000), tally=t, shard=i, record=rec), list(range(16)))
 
 
@@ -383,6 +385,7 @@ def drv_ars(ctx: Ctx, sub: SubCheck):
         for k in ars_classes(c):
             t.cls(sub.name, k)
 
+    warm_hypothesis_constants()
     ctx.shards(lambda i, t: ctx.hypothesis(sub.name, strat, oracle_ars, ctx.pick(300, 8000), tally=t, shard=i, record=rec), list(range(16)))
 
 
